@@ -180,6 +180,10 @@ class Interp:
             _fns["deref"](fut)
         elif t == "boundfn":
             _run_thread(_fns["bf*"](lambda: self.block(n[1])))
+        elif t == "bflocal":
+            f = _fns["bf*"](lambda: self.block(n[1]))
+            self.block(n[2])
+            f()
         elif t == "pmap":
             _fns["pmap*"](lambda: self.block(n[2]), n[1])
         else:
@@ -297,6 +301,14 @@ class _Gen:
                 ctx2 = dict(ctx, fdepth=2, child=True, in_pool=True)
                 out.append(["pmap", rng.choice([1, 2, 3]),
                             [["probe", self.nid()]] + self.block(depth + 2, set(bound), ctx2, budget)])
+            elif r < 0.945 and depth < 4 and bound:
+                body = [["probe", self.nid()]] + self.block(depth + 1, set(bound), ctx, budget)
+                after = []
+                if rng.random() < 0.7:
+                    after.append(["set", rng.choice(sorted(bound)), self.nval()])
+                    after.append(["probe", self.nid()])
+                out.append(["bflocal", body, after])
+                out.append(["probe", self.nid()])
             elif r < 0.97 and ctx["t0"] and not ctx.get("child"):
                 out.append(["root", rng.choice(M.VARS), self.nval()])
             else:
@@ -365,7 +377,8 @@ def _shrink_nodes(nodes):
         yield nodes[:i] + nodes[i + 1:]
     for i, n in enumerate(nodes):
         t = n[0]
-        bodies = {"binding": [3], "try": [2], "future": [1, 2], "boundfn": [1], "pmap": [2]}.get(t, [])
+        bodies = {"binding": [3], "try": [2], "future": [1, 2], "boundfn": [1], "pmap": [2],
+                  "bflocal": [1, 2]}.get(t, [])
         for bi in bodies:
             for sb in _shrink_nodes(n[bi]):
                 m = copy.deepcopy(n)
@@ -454,6 +467,10 @@ def _count_faults(nodes, acc):
         elif t in ("boundfn",):
             acc["children"] = acc.get("children", 0) + 1
             _count_faults(n[1], acc)
+        elif t == "bflocal":
+            acc["children"] = acc.get("children", 0) + 1
+            _count_faults(n[1], acc)
+            _count_faults(n[2], acc)
         elif t == "pmap":
             acc["children"] = acc.get("children", 0) + n[1]
             _count_faults(n[2], acc)
